@@ -43,7 +43,8 @@ def main():
     cmd = meta.get("demo_cmd", "go test ./%s -count=1 -run Demo" % pkg)
     cmd = cmd.split("#")[0].strip()
     if "&&" in cmd:  # e.g. "cp _out/... s2/ && go test ..." - the copy is done here
-        cmd = [c.strip() for c in cmd.split("&&") if c.strip().startswith("go test")][-1]
+        cmd = [c.strip() for c in cmd.split("&&") if "go test" in c][-1]
+        cmd = cmd[cmd.index("go test"):]  # drop leading VAR=value settings (the environment is set here)
     wt = "/tmp/seedcheck_%s" % sid
     sh(["git", "-C", "/repo", "worktree", "remove", "--force", wt]); shutil.rmtree(wt, ignore_errors=True)
     rc, out = sh(["git", "-C", "/repo", "worktree", "add", "--detach", wt, "HEAD"])
